@@ -59,9 +59,11 @@ def stage_build(prop, modules=None):
 def stage_audit(prop, modules=None):
     """B: axioms of every property theorem, forbidden tokens in the sources it depends on."""
     mods = ["Simpleline.Props." + m for m in (modules or [prop])]
-    theorems = []; files = []
+    theorems = []; files = []; namespaces = ["Simpleline"]
     for module in mods:
         src = open(os.path.join(LEAN, module.replace(".", "/") + ".lean")).read()
+        for ns in re.findall(r"^namespace\s+([\w.]+)", strip_comments(src), re.M):
+            if ns not in namespaces: namespaces.append(ns)
         theorems += re.findall(r"^theorem\s+([\w.']+)", strip_comments(src), re.M)
         for f in lean_imports(module):
             if f not in files: files.append(f)
@@ -73,7 +75,7 @@ def stage_audit(prop, modules=None):
     os.makedirs(OUT, exist_ok=True)
     audit = os.path.join(OUT, "Audit_%s.lean" % prop)
     with open(audit, "w") as fh:
-        fh.write("".join("import %s\n" % m for m in mods) + "open Simpleline\n")
+        fh.write("".join("import %s\n" % m for m in mods) + "open " + " ".join(namespaces) + "\n")
         for t in theorems:
             fh.write("#print axioms %s\n" % t)
     rc, out = sh(["lake", "env", "lean", audit], cwd=LEAN)
